@@ -12,7 +12,7 @@ from astropy.io import fits
 
 from .ref import nu_of, ref_norm, KPC_CM
 
-_ALPHA = 'abcdefghijklmnopqrstuvwxyz0123456789'
+_ALPHA = 'abcdefghijklmnopqrstuvwxyz0123456789ABCXYZ_-.'     # model names: mixed case, digits, '_', '-', '.'
 
 
 def _round(a, dtype):
@@ -62,6 +62,7 @@ def gen_world(rng, fmt=None, apdep=None, n_models=(1, 8), n_ap=(1, 5), n_wav=(5,
     w['ap_unit'] = rng.choice(['arcsec', 'arcsec', 'arcmin', 'deg', 'mas'])
     # filters built in memory, or read with Filter.read from two-column text files and normalised by the user
     w['filters_from_file'] = rng.random() < 0.3
+    w['args_as'] = rng.choice(['list', 'list', 'tuple', 'array'])      # how filter names / ranges are handed over
     w['d_unit'] = rng.choice(['kpc', 'kpc', 'pc', 'cm', 'lyr'])
     # one model may have exactly zero flux where one filter is sensitive (a legal grid: sedfitter treats a zero
     # convolved flux as 'invalid'); its fits come out non-finite and sit among finite ones in every result
@@ -121,7 +122,11 @@ class World(object):
         while len(names) < nm:
             L = int(gn.integers(3, 11)) if gn.random() < 0.8 else int(gn.integers(24, 31))     # up to the 30-character column limit
             s = ''.join(_ALPHA[int(k)] for k in gn.integers(0, len(_ALPHA), L))
-            if s not in seen and not any(s.startswith(t) or t.startswith(s) for t in seen):
+            if s[0] in '-.' or s[-1] == '.':
+                continue
+            if names and gn.random() < 0.15:
+                s = (names[int(gn.integers(0, len(names)))] + s)[:30]        # a name that has another name as its prefix
+            if s not in seen:
                 seen.add(s)
                 names.append(s)
         self.names = names
